@@ -45,6 +45,9 @@ func drawC18(t *rapid.T, x *X) *Case {
 		if gspec.U(t, 10, "tinybudget") == 0 {
 			j.Opts.MaxExpr = uint64(3 + gspec.U(t, 40, "tinybudgetn"))
 		}
+		// a tenth of the jobs run with Recover(false): their panics reach the caller (the
+		// adapter), and nobody else may notice
+		j.Opts.NoRecover = gspec.U(t, 10, "norecoverjob") == 0
 		j.ViaReader = gspec.U(t, 3, "viareader") == 0
 		if gspec.U(t, 5, "invalidutf8") == 0 {
 			j.Input = gspec.InvalidUTF8Edit(t, j.Input)
@@ -79,7 +82,7 @@ func runJob(pk PkgMeta, j *Job, safety uint64) *jobResult {
 	reg := vrt.Lookup(pk.Name)
 	ctx := vrt.NewCtx(j.Plan)
 	req := &vrt.Request{Entry: j.Entry, Filename: j.Opts.Filename, Input: j.Input, Memoize: j.Opts.Memoize && !pk.Optimized, Stats: j.Opts.Stats && !pk.Optimized,
-		Debug:   j.Opts.Debug && !pk.Optimized,
+		Debug:   j.Opts.Debug && !pk.Optimized, NoRecover: j.Opts.NoRecover,
 		MaxExpr: safety, InitState: initStateOf(j.Opts), Ctx: ctx, ViaReader: j.ViaReader, AllowInvalid: j.Opts.AllowInvalid}
 	if j.Opts.MaxExpr > 0 {
 		req.MaxExpr = j.Opts.MaxExpr
